@@ -16,6 +16,7 @@ Require Import Zrs.lib.RsPrelude Zrs.gen.Generated Zrs.model.BitIO Zrs.model.Fse
 Require Import Zrs.proofs.C06_Drain Zrs.proofs.C05_Block Zrs.proofs.C09_Lz Zrs.proofs.C01_Exec Zrs.proofs.C14_Headers
   Zrs.proofs.C17_Matcher Zrs.proofs.C02_Roundtrip.
 Require Import Zrs.model.Headers Zrs.model.SeqSection Zrs.model.BlockEnc Zrs.model.LitEnc Zrs.proofs.C12_SeqStream Zrs.proofs.C02_BlockGen Zrs.proofs.C02_HufSide.
+Require Import Zrs.model.BitStream Zrs.model.SeqEnc Zrs.proofs.C12_SeqStreamR Zrs.proofs.C12_Modes Zrs.proofs.C02_Block Zrs.proofs.C01_BlockModes.
 Open Scope Z_scope.
 
 Theorem C01_sequence_execution_is_the_reference : forall seqs lits buf hist buf' hist',
@@ -87,6 +88,32 @@ Theorem C01_decoder_inverts_the_block_writer :
     end.
 Proof. exact block_decodes. Qed.
 
+(** ... and with ANY combination of the four sequence-table modes (predefined, RLE, FSE compressed, repeat; [mtable],
+    [tab_ready] as in C12) and any literals layout the literals decoder reads back (raw / RLE / Huffman in one or four
+    streams, with a description or treeless, every size format: C13): the block decodes to its literals and to the
+    values of the coded sequences, which are executed; the decoder keeps exactly the tables and RLE bytes meant *)
+Theorem C01_compressed_block_any_layout_any_modes :
+  forall (hdr payload : list Z) (ty regen : Z) (comp streams : option Z) (sc : scratch) (ht' : huf_table) (lits : list Z),
+  (forall rest, lit_header_parse (hdr ++ rest) = ROk (zlen hdr, ty, regen, comp, streams)) ->
+  match comp with Some x => x | None => if ty =? 1 then 1 else regen end = zlen payload ->
+  regen = zlen lits /\ regen <= MAX_BLOCK_SIZE ->
+  decode_literals {| ls_type := ty; ls_regen := regen; ls_comp := comp; ls_streams := streams |} (sc_huf sc) payload
+    = ROk (ht', lits, zlen payload) ->
+  forall (mll mof mml : tmode) (Dll Dof Dml : fse_table) (rll rof rml : option Z),
+  mtable mll (fs_ll (sc_fse sc)) (fs_ll_rle (sc_fse sc)) LL_MAX_LOG MAX_LITERAL_LENGTH_CODE LL_DEFAULT_ACC_LOG LITERALS_LENGTH_DEFAULT_DISTRIBUTION Dll rll ->
+  mtable mof (fs_of (sc_fse sc)) (fs_of_rle (sc_fse sc)) OF_MAX_LOG MAX_OFFSET_CODE OF_DEFAULT_ACC_LOG OFFSET_DEFAULT_DISTRIBUTION Dof rof ->
+  mtable mml (fs_ml (sc_fse sc)) (fs_ml_rle (sc_fse sc)) ML_MAX_LOG MAX_MATCH_LENGTH_CODE ML_DEFAULT_ACC_LOG MATCH_LENGTH_DEFAULT_DISTRIBUTION Dml rml ->
+  forall sl sm so, tab_ready Dll rll sl -> tab_ready Dml rml sm -> tab_ready Dof rof so ->
+  forall qs, qs <> [] -> Forall cseq_ok qs -> Forall (q_in sl sm so) qs -> Z.of_nat (length qs) <= 98047 ->
+  let stream := stream_bytes (enc_fields (enc_for Dll rll) (enc_for Dml rml) (enc_for Dof rof) qs) in
+  let sp := spec_seqnum_bytes (Z.of_nat (length qs)) ++ modes_byte mll mof mml :: (mbytes mll ++ mbytes mof ++ mbytes mml ++ stream) in
+  exists vals, Forall2 (fun q v => cseq_value q = Some v) qs vals /\
+    decompress_block (zlen (hdr ++ payload ++ sp)) sc (hdr ++ payload ++ sp) =
+      let* (buf, hist) := execute_sequences vals lits (sc_buf sc) (sc_hist sc) in
+      ROk {| sc_huf := ht'; sc_fse := scr Dll rll Dml rml Dof rof; sc_buf := buf; sc_hist := hist |}.
+Proof. exact block_decodes_modes. Qed.
+
+Print Assumptions C01_compressed_block_any_layout_any_modes.
 Print Assumptions C01_decoder_inverts_the_block_writer.
 Print Assumptions C01_sequence_execution_is_the_reference.
 Print Assumptions C01_decoded_sequences_meet_the_hypothesis.
